@@ -269,6 +269,17 @@ theorem C18_repair_succeeds_dec (S' : Spec) (fuel' : Nat) (st' : St) (e' : Entry
     rw [hv] at this
     cases this
 
+/-- **The repaired pre-load succeeds** (`GlobalRepo.load_models_in_model_repo` into the global repository,
+e.g. after `C18_preload_fail`): every registered pattern denotes a file, the files of an import-closed set
+`U` containing them have no fault and enough fuel, and every reference in them has a visible definition
+⇒ the pre-load ends `ok` (and `C17_preload` describes the result). -/
+theorem C18_preload_repair_succeeds (S : Spec) (hg : S.glob = true) (fuel : Nat) (calls : List (Option File))
+    (st : St) (hwf : WF st) (U : List File) (hU : ∀ h ∈ U, ∀ x, some x ∈ S.calls h → x ∈ U)
+    (hS : NoFaultOn S U) (hn : U.length ≤ fuel) (hnone : none ∉ calls) (hc : ∀ c, some c ∈ calls → c ∈ U)
+    (hv : ∀ g ∈ U, ∀ n ∈ S.refs g, Visible S st g n) : (preload S fuel st calls).2 = .ok :=
+  preload_succeeds S hg U hU hS fuel hn calls st hwf hnone hc
+    (fun g hgU n hn' => (C18_visible_iff S st g n).2 (hv g hgU n hn'))
+
 /-! ## histories: what an earlier successful load cached stays -/
 
 /-- **Cached models stay, along any history.**  On a metamodel with a global repository, whatever loads
@@ -400,5 +411,19 @@ example : HistOK true exHist St.init := ⟨rfl, by decide, rfl, by decide, rfl, 
 example : (runOps (exHist.take 1) St.init).all = [(3, 0)] := by decide
 example : (runOps (exHist.take 2) St.init).all = [(3, 0)] := by decide
 example : (runOps exHist St.init).all = [(3, 0), (0, 4), (1, 5), (2, 6)] := by decide
+
+/-- after the failing pre-load of `exG 0 1` (file 1 does not parse) the repaired pre-load succeeds: all
+hypotheses of `C18_preload_repair_succeeds` hold (decided) -/
+example : (preload (exG 9 0) 4 (preload (exG 0 1) 4 St.init [some 0, some 1]).1 [some 0, some 1]).2 = .ok :=
+  C18_preload_repair_succeeds (exG 9 0) rfl 4 [some 0, some 1] _
+    (preload_wf (exG 0 1) 4 St.init [some 0, some 1] rfl WF.init (by decide))
+    [0, 1] (closedB_spec (by decide)) (noFaultB_spec (by decide)) (by decide) (by decide)
+    (fun c hc => by
+      have : ∀ x ∈ [some 0, some 1], ∀ c, x = some c → c ∈ [0, 1] := by decide
+      exact this _ hc c rfl)
+    (fun g hg n hn => (C18_visible_iff _ _ g n).1 (by
+      have : ∀ g ∈ [0, 1], ∀ n ∈ (exG 9 0).refs g,
+          visible (exG 9 0) (preload (exG 0 1) 4 St.init [some 0, some 1]).1 g n = true := by decide
+      exact this g hg n hn))
 
 end Repo
